@@ -909,3 +909,123 @@ func (c *Ctx) entryReachCut(r *Report, cut func(*FuncInfo) bool, entries ...stri
 	}
 	return out
 }
+
+// ruleReflectSign: R-REFLECT-SIGN — inside an arm of `switch v.Kind()` that covers unsigned kinds,
+// reading the value through Int() (directly or after Convert to a signed type) loses values ≥ 2^63
+// (and Int() on an unsigned Value panics); symmetrically Uint() in arms covering signed kinds.
+func ruleReflectSign(c *Ctx, r *Report, fs []*FuncInfo, floor int) {
+	r.Rule("R-REFLECT-SIGN", "in a reflect kind dispatch an arm that covers unsigned kinds never reads the value with Int()/Convert(<signed>) and an arm that covers signed kinds never reads it with Uint()/Convert(<unsigned>): uint64 values ≥ 2^63 and negative values must keep their magnitude", floor)
+	unsigned := map[string]bool{"reflect.Uint": true, "reflect.Uint8": true, "reflect.Uint16": true, "reflect.Uint32": true, "reflect.Uint64": true, "reflect.Uintptr": true}
+	signed := map[string]bool{"reflect.Int": true, "reflect.Int8": true, "reflect.Int16": true, "reflect.Int32": true, "reflect.Int64": true}
+	for _, f := range fs {
+		info := f.Info()
+		for ti, t := range KindSwitches(f, "reflect.Kind") {
+			for ai, a := range t.Arms {
+				if a.Deflt {
+					continue
+				}
+				hasU, hasS := false, false
+				for _, k := range a.Keys {
+					if unsigned[k] {
+						hasU = true
+					}
+					if signed[k] {
+						hasS = true
+					}
+				}
+				if !hasU && !hasS {
+					continue
+				}
+				key := fmt.Sprintf("%s:kind-switch#%d:arm#%d(%s)", f.Name, ti+1, ai+1, strings.Join(a.Keys, ","))
+				bad := ""
+				var badPos token.Pos
+				ast.Inspect(a.Node, func(n ast.Node) bool {
+					call, ok := n.(*ast.CallExpr)
+					if !ok {
+						return true
+					}
+					fn := FullName(Callee(info, call))
+					switch fn {
+					case "reflect.Value.Int":
+						if hasU {
+							bad, badPos = "reads an unsigned value with Int()", call.Pos()
+						}
+					case "reflect.Value.Uint":
+						if hasS {
+							bad, badPos = "reads a signed value with Uint()", call.Pos()
+						}
+					case "reflect.Value.Convert":
+						if len(call.Args) == 1 {
+							// the target type: reflect.TypeOf(int64(0)) or a variable initialised so.
+							tt := convTargetKind(f, call.Args[0])
+							if hasU && strings.HasPrefix(tt, "int") {
+								bad, badPos = "converts an unsigned value to "+tt, call.Pos()
+							}
+							if hasS && strings.HasPrefix(tt, "uint") {
+								bad, badPos = "converts a signed value to "+tt, call.Pos()
+							}
+						}
+					}
+					return true
+				})
+				pos := a.Node.Pos()
+				if bad != "" {
+					pos = badPos
+				}
+				r.Check(bad == "", key, c.Pos(pos), "value read with the accessor of its own signedness", f.Name+" "+bad+" in the arm for "+strings.Join(a.Keys, ",")+": uint64 values ≥ 2^63 wrap to negative numbers (or negative values to huge ones)")
+			}
+		}
+	}
+}
+
+// convTargetKind: name of the basic type a reflect.Type expression denotes (reflect.TypeOf(int64(0)),
+// or a package-level/local variable initialised with such a call).
+func convTargetKind(f *FuncInfo, e ast.Expr) string {
+	info := f.Info()
+	e = ast.Unparen(e)
+	if call, ok := e.(*ast.CallExpr); ok && FullName(Callee(info, call)) == "reflect.TypeOf" && len(call.Args) == 1 {
+		if tv, ok := info.Types[call.Args[0]]; ok {
+			if b, ok := tv.Type.Underlying().(*types.Basic); ok {
+				return b.Name()
+			}
+		}
+		return ""
+	}
+	obj := ObjOf(info, e)
+	if obj == nil {
+		return ""
+	}
+	res := ""
+	for _, file := range f.Pkg.Syntax {
+		ast.Inspect(file, func(n ast.Node) bool {
+			switch s := n.(type) {
+			case *ast.ValueSpec:
+				for i, nm := range s.Names {
+					if info.ObjectOf(nm) == obj && i < len(s.Values) {
+						if call, ok := s.Values[i].(*ast.CallExpr); ok && FullName(Callee(info, call)) == "reflect.TypeOf" && len(call.Args) == 1 {
+							if tv, ok := info.Types[call.Args[0]]; ok {
+								if b, ok := tv.Type.Underlying().(*types.Basic); ok {
+									res = b.Name()
+								}
+							}
+						}
+					}
+				}
+			case *ast.AssignStmt:
+				for i, l := range s.Lhs {
+					if ObjOf(info, l) == obj && i < len(s.Rhs) {
+						if call, ok := s.Rhs[i].(*ast.CallExpr); ok && FullName(Callee(info, call)) == "reflect.TypeOf" && len(call.Args) == 1 {
+							if tv, ok := info.Types[call.Args[0]]; ok {
+								if b, ok := tv.Type.Underlying().(*types.Basic); ok {
+									res = b.Name()
+								}
+							}
+						}
+					}
+				}
+			}
+			return true
+		})
+	}
+	return res
+}
